@@ -8,6 +8,7 @@ import (
 	"fmt"
 	"reflect"
 	"sort"
+	"strconv"
 	"strings"
 
 	"github.com/boz/kcache/filter"
@@ -225,7 +226,9 @@ func wlMapKind(kind string) bool { return kind == "service" || kind == "rc" }
 // buildPodsFilter builds the library's pods filter for the workloads, given in
 // the order provided.
 // buildPodsFilter builds the filter from fresh API objects.
-func buildPodsFilter(kind string, ws []wl) filter.ComparableFilter { return podsFilterBuilder(kind, ws)() }
+func buildPodsFilter(kind string, ws []wl) filter.ComparableFilter {
+	return podsFilterBuilder(kind, ws)()
+}
 
 // podsFilterBuilder creates the API objects ONCE and returns a function that
 // calls PodsFilter on that same argument slice each time it is invoked (a
@@ -256,13 +259,21 @@ func podsFilterBuilder(kind string, ws []wl) func() filter.ComparableFilter {
 	case "rs":
 		var s []*appsv1.ReplicaSet
 		for _, w := range ws {
-			s = append(s, &appsv1.ReplicaSet{ObjectMeta: om(w), Spec: appsv1.ReplicaSetSpec{Selector: w.sel, Template: pt(w)}})
+			rs := &appsv1.ReplicaSet{ObjectMeta: om(w), Spec: appsv1.ReplicaSetSpec{Selector: w.sel, Template: pt(w)}}
+			if len(w.name)%2 == 0 {
+				rs.Spec.Replicas = new(int32) // scaled to zero: its pods may still be there
+			}
+			s = append(s, rs)
 		}
 		return func() filter.ComparableFilter { return replicaset.PodsFilter(s...) }
 	case "deployment":
 		var s []*appsv1.Deployment
 		for _, w := range ws {
-			s = append(s, &appsv1.Deployment{ObjectMeta: om(w), Spec: appsv1.DeploymentSpec{Selector: w.sel, Template: pt(w)}})
+			dp := &appsv1.Deployment{ObjectMeta: om(w), Spec: appsv1.DeploymentSpec{Selector: w.sel, Template: pt(w)}}
+			if len(w.name)%2 == 0 {
+				dp.Spec.Replicas = new(int32)
+			}
+			s = append(s, dp)
 		}
 		return func() filter.ComparableFilter { return deployment.PodsFilter(s...) }
 	case "daemonset":
@@ -274,7 +285,11 @@ func podsFilterBuilder(kind string, ws []wl) func() filter.ComparableFilter {
 	case "statefulset":
 		var s []*appsv1.StatefulSet
 		for _, w := range ws {
-			s = append(s, &appsv1.StatefulSet{ObjectMeta: om(w), Spec: appsv1.StatefulSetSpec{Selector: w.sel, Template: pt(w)}})
+			ss := &appsv1.StatefulSet{ObjectMeta: om(w), Spec: appsv1.StatefulSetSpec{Selector: w.sel, Template: pt(w)}}
+			if len(w.name)%2 == 0 {
+				ss.Spec.Replicas = new(int32)
+			}
+			s = append(s, ss)
 		}
 		return func() filter.ComparableFilter { return statefulset.PodsFilter(s...) }
 	case "job":
@@ -630,7 +645,10 @@ func e17Atoms() []*kit.Term {
 		psel("Parse('')", func() labels.Selector { return mustParse("") }, func(map[string]string) bool { return true }),
 		psel("Parse('l=x')", func() labels.Selector { return mustParse("l=x") }, func(l map[string]string) bool { return l["l"] == "x" }),
 		psel("Parse('l=')", func() labels.Selector { return mustParse("l=") }, func(l map[string]string) bool { v, ok := l["l"]; return ok && v == "" }),
-		psel("Parse('!l')", func() labels.Selector { return mustParse("!l") }, func(l map[string]string) bool { _, ok := l["l"]; return !ok }))
+		psel("Parse('!l')", func() labels.Selector { return mustParse("!l") }, func(l map[string]string) bool { _, ok := l["l"]; return !ok }),
+		psel("Parse('m>1')", func() labels.Selector { return mustParse("m>1") }, func(l map[string]string) bool { v, err := strconv.Atoi(l["m"]); return err == nil && v > 1 }),
+		psel("Parse('m<2')", func() labels.Selector { return mustParse("m<2") }, func(l map[string]string) bool { v, err := strconv.Atoi(l["m"]); return err == nil && v < 2 }),
+		psel("Parse('l>0')", func() labels.Selector { return mustParse("l>0") }, func(l map[string]string) bool { v, err := strconv.Atoi(l["l"]); return err == nil && v > 0 }))
 	for _, s := range e17Selectors() {
 		at = append(at, kit.TLSel(s))
 	}
@@ -638,6 +656,12 @@ func e17Atoms() []*kit.Term {
 		kit.TFN("ns=n0", func(o metav1.Object) bool { return o.GetNamespace() == "n0" }),
 		kit.TFN("has-l", func(o metav1.Object) bool { _, ok := o.GetLabels()["l"]; return ok }),
 		kit.TFN("true", func(metav1.Object) bool { return true }))
+	// function filters produced by ONE function literal with different captured values
+	// (they share their code pointer and nothing else)
+	for _, ns := range []string{"n0", "n1", "app"} {
+		ns := ns
+		at = append(at, kit.TFN("in-namespace("+ns+")", func(o metav1.Object) bool { return o.GetNamespace() == ns }))
+	}
 	at = append(at, tNode(), tNode("node1"), tNode("node2", "node1"), tNode("node1", "node2"), tNode(""))
 	at = append(at, tInvolved("Pod", "n0", "a"), tInvolved("Pod", "n0", "b"), tInvolved("Service", "n0", "a"), tInvolved("Pod", "n1", "a"))
 	at = append(at, tSelMatch(nil), tSelMatch(map[string]string{"l": "x"}), tSelMatch(map[string]string{"l": "x", "m": "1"}), tSelMatch(map[string]string{"m": "1", "l": "x"}))
@@ -790,6 +814,35 @@ func e17SemanticsCase(chunk, chunks int, seed uint64, depth3 int) Case {
 		}
 		n := int64(0)
 		var sample []string
+		if chunk == 0 {
+			// Accept is a function of the object only: what the caller does to the argument
+			// it built the filter from, after building it, changes nothing
+			for si, sel := range e17Selectors() {
+				if sel == nil {
+					continue
+				}
+				mine := sel.DeepCopy()
+				f := filter.LabelSelector(mine)
+				if mine.MatchLabels == nil {
+					mine.MatchLabels = map[string]string{}
+				}
+				mine.MatchLabels["l"] = "changed-afterwards"
+				for i := range mine.MatchExpressions {
+					if len(mine.MatchExpressions[i].Values) > 0 {
+						mine.MatchExpressions[i].Values[0] = "changed-afterwards"
+					}
+					mine.MatchExpressions[i].Key = "other"
+				}
+				ref := kit.TLSel(sel)
+				for _, o := range uni {
+					n++
+					if got, want := f.Accept(o), ref.Eval(o); got != want {
+						r.V("C18", "accept-wrong:lsel", "LabelSelector(selector #%d) was built and then the caller changed its selector struct: Accept(%T %s/%s labels{%s}) = %v, label-selector semantics of the selector it was built from say %v", si, o, o.GetNamespace(), o.GetName(), kit.LabelsString(o.GetLabels()), got, want)
+						break
+					}
+				}
+			}
+		}
 		for ti, t := range terms {
 			if ti%chunks != chunk || isWorkloadAtom(t) || hasWorkload(t) {
 				continue
@@ -952,6 +1005,82 @@ func e17EqualityCase(chunk, chunks int, seed uint64, depth3Pairs int) Case {
 				}
 			}
 		}
+		// many sources (more than small-slice sorting fast paths handle), the same names in
+		// two namespaces, given in several orders
+		if chunk == 0 {
+			for _, kind := range wlKinds {
+				ws := e17Workloads(kind)
+				var many []wl
+				for i := 0; i < 15; i++ {
+					w := ws[(i*3+1)%len(ws)]
+					w.ns, w.name = []string{"n0", "n1"}[i%2], fmt.Sprintf("job-%d", i/2)
+					many = append(many, w)
+				}
+				ref := buildPodsFilter(kind, many)
+				for _, how := range []string{"reversed", "rotated", "interleaved"} {
+					perm := append([]wl(nil), many...)
+					switch how {
+					case "reversed":
+						for i, j := 0, len(perm)-1; i < j; i, j = i+1, j-1 {
+							perm[i], perm[j] = perm[j], perm[i]
+						}
+					case "rotated":
+						perm = append(perm[5:], perm[:5]...)
+					case "interleaved":
+						var a, b []wl
+						for i, w := range perm {
+							if i%2 == 0 {
+								a = append(a, w)
+							} else {
+								b = append(b, w)
+							}
+						}
+						perm = append(b, a...)
+					}
+					r.Add("permutation-checks", 1)
+					if f := buildPodsFilter(kind, perm); !filter.FiltersEqual(ref, f) || !filter.FiltersEqual(f, ref) {
+						r.V("C17", "permutation-not-equal", "%s.PodsFilter over 15 sources (same names in two namespaces) does not compare equal to the same sources %s", kind, how)
+						break
+					}
+				}
+			}
+			// the caller changes its argument AFTER the filter was built (and before the filter
+			// is used for the first time): the filter keeps the meaning it was built with
+			for si, sel := range e17Selectors() {
+				if sel == nil {
+					continue
+				}
+				mine := sel.DeepCopy()
+				f := filter.LabelSelector(mine)
+				if mine.MatchLabels == nil {
+					mine.MatchLabels = map[string]string{}
+				}
+				mine.MatchLabels["l"] = "changed-afterwards"
+				for i := range mine.MatchExpressions {
+					if len(mine.MatchExpressions[i].Values) > 0 {
+						mine.MatchExpressions[i].Values[0] = "changed-afterwards"
+					}
+					mine.MatchExpressions[i].Key = "other"
+				}
+				want := acceptBits(filter.LabelSelector(sel.DeepCopy()), uni)
+				r.Add("rebuilt-checks", 1)
+				if ok, i := same(acceptBits(f, uni), want); !ok {
+					o := uni[i]
+					r.V("C17", "argument-aliased", "LabelSelector(selector #%d) was built, then the caller changed its selector struct: the filter now decides %T %s/%s labels{%s} differently from a filter built from the original selector (and would still compare equal to it)", si, o, o.GetNamespace(), o.GetName(), kit.LabelsString(o.GetLabels()))
+					break
+				}
+			}
+			for _, m := range []map[string]string{{"l": "x"}, {"l": "x", "m": "1"}} {
+				mine := copyStrMap(m)
+				f := filter.Labels(mine)
+				mine["l"] = "changed-afterwards"
+				want := acceptBits(filter.Labels(copyStrMap(m)), uni)
+				r.Add("rebuilt-checks", 1)
+				if ok, _ := same(acceptBits(f, uni), want); !ok {
+					r.V("C17", "argument-aliased", "Labels(%v) was built, then the caller changed its map: the filter's decisions changed with it", m)
+				}
+			}
+		}
 		// depth 3, sampled pairs: a term against itself rebuilt, against a mutated copy and against a random term
 		rng := kit.NewRng(kit.Mix(seed, uint64(chunk)+1718))
 		atoms := e17Atoms()
@@ -1030,6 +1159,14 @@ func e17EqualityCase(chunk, chunks int, seed uint64, depth3Pairs int) Case {
 }
 
 func hasFNDeep(t *kit.Term) bool { return !t.Comparable() }
+
+func copyStrMap(m map[string]string) map[string]string {
+	out := map[string]string{}
+	for k, v := range m {
+		out[k] = v
+	}
+	return out
+}
 
 var _ = reflect.DeepEqual
 var _ = sort.Strings
